@@ -61,8 +61,12 @@ def gen_message(rng: random.Random, big: bool = False, allow_long: bool = True) 
         suffixes.append(rand_name(rng, suffixes, False))
     multicast = rng.random() < 0.7
     is_query = rng.random() < 0.4
-    size_mode = rng.choice(['small', 'small', 'medium', 'boundary', 'large', 'huge'] if big else ['small', 'small', 'medium', 'boundary'])
-    if size_mode == 'small':
+    size_mode = rng.choice(['small', 'small', 'medium', 'boundary', 'large', 'huge', 'tail'] if big else ['small', 'small', 'medium', 'boundary', 'tail'])
+    if size_mode == 'tail':
+        # a short head and a long authority / additional section of records of very different sizes that spills over several
+        # datagrams: where a datagram is full, the record that does not fit is often followed by one that would
+        counts = [rng.choice([0, 1]), rng.choice([0, 1, 3]), rng.choice([0, 0, 25, 60]), rng.choice([20, 45, 72, 110])]
+    elif size_mode == 'small':
         counts = [rng.choice([0, 1, 2]), rng.choice([0, 1, 3, 6]), rng.choice([0, 0, 1]), rng.choice([0, 0, 2, 5])]
     elif size_mode == 'medium':
         counts = [rng.choice([0, 1, 5]), rng.choice([5, 20, 40]), rng.choice([0, 3]), rng.choice([0, 10])]
@@ -82,10 +86,14 @@ def gen_message(rng: random.Random, big: bool = False, allow_long: bool = True) 
             return rng.choice([1400, 1440, 1447, 1460, 3000, 8000, 8800, 8900, 8930])
         if size_mode == 'boundary':
             return rng.choice([0, 10, 100, 200, 400])
+        if size_mode == 'tail':
+            return rng.choice([0, 0, 4, 30, 250, 250, 420])
         return rng.choice([0, 1, 10, 60, 255])
 
     def rec(section: str) -> dict:
         kind = rng.choice(['A', 'AAAA', 'PTR', 'CNAME', 'TXT', 'SRV', 'HINFO', 'NSEC']) if section != 'ns' else 'PTR'
+        if size_mode == 'tail' and section == 'ar':
+            kind = rng.choice(['TXT', 'TXT', 'A', 'SRV', 'AAAA'])
         name = rand_name(rng, suffixes, allow_long)
         ttl = rng.choice([0, 1, 120, 4500, 4500, 2 ** 31 - 1, 2 ** 31, 2 ** 32 - 1, rng.randint(0, 2 ** 32 - 1)])
         cls = rng.choice([1, 1, 1, 0x8001, 0x8001, 3, 255])
